@@ -5,7 +5,7 @@ CHECK_DEADLOCK FALSE
 INVARIANTS ClosedOnce NoPendingLost
 CONSTANTS
   MaxDepth = 4
-  MaxSteps = 7
+  MaxSteps = 6
   MaxPend = 2
   Kinds = {"do","loop","forin","fn","pcall","co"}
   Handlers = {"ok","raise","raisetbc","nil","false","nometa"}
